@@ -7,15 +7,12 @@ from typing import Callable, Dict, Optional
 from .rules import (alias, align, cmp, construct, dispatch, flow, keys, ops, opt, pyx, reg, repres, sig,
                     small, structure, wrappers)
 
-_CACHE: Dict[tuple, object] = {}
-
-
 def _cached(key, fn):
     def run(ctx):
-        ck = (id(ctx), key)
-        if ck not in _CACHE:
-            _CACHE[ck] = fn(ctx)
-        return _CACHE[ck]
+        cache = ctx.__dict__.setdefault("_rule_cache", {})
+        if key not in cache:
+            cache[key] = fn(ctx)
+        return cache[key]
 
     return run
 
@@ -36,6 +33,7 @@ RULES: Dict[str, Callable] = {
     "R-CMP": _cached("R-CMP", cmp.run),
     "R-FLOW": _cached("R-FLOW", flow.run_flow),
     "R-UNSIGNED": _cached("R-UNSIGNED", flow.run_unsigned),
+    "R-LAYOUT": _cached("R-LAYOUT", flow.run_layout),
     "R-LEAD": _cached("R-LEAD", structure.run_lead),
     "R-GRAD": _cached("R-GRAD", structure.run_grad),
     "R-ALIGNFN": _cached("R-ALIGNFN", structure.run_alignfn),
@@ -89,6 +87,7 @@ PLAN: Dict[str, dict] = {
             G("R-PYX-MUL", "products: set on first sight of a key, accumulate afterwards; key encoder width"),
             G("R-OPT-PINNED", "alignment pins the retain flags, so aligned operands keep one layout under every option setting"),
             S("R-DTYPE", "result dtype of a combination depends on all operands"),
+            G("R-ALIGNFN", "align_exponents rebuilds every operand (consumers read .values of fresh, contiguous results)"),
         ],
         "explanation": "Structural clauses of exact ring arithmetic: (1) add/subtract/negative/positive hand the "
                        "coefficient storage to the numpy function they are registered for, operands in parameter order; "
@@ -160,6 +159,7 @@ PLAN: Dict[str, dict] = {
         "uses": [
             S("R-UNSIGNED", "differentiation does not rely on clean-up to discard a wrapped unsigned exponent"),
             G("R-COLIDX", "the column index comes from the names of the polynomial whose exponent columns are indexed"),
+            G("R-LAYOUT", "positional column indices only on polynomials whose names layout is option-independent"),
             G("R-GRAD", "gradient stacks derivative over all names in order; hessian = gradient of gradient"),
             S("R-ALIGN", "derivative re-aligns with the reference after each variable"),
         ],
@@ -293,6 +293,7 @@ PLAN: Dict[str, dict] = {
             G("R-OPT-PINNED", "layout-critical constructions pin the retain flags"),
             G("R-UNSIGNED", "differentiation does not depend on clean-up"),
             G("R-NAMES", "names never fall back to positional defaults when storage is re-wrapped"),
+            G("R-LAYOUT", "derivative's column indices never meet an option-dependent names layout"),
         ],
         "explanation": "Who-may-read layering of the 12 option keys over all 33 read sites; retain_* only replace a None argument; "
                        "graded=/reverse= receive *_graded/*_reverse of the right family or the function's own parameters; "
